@@ -57,7 +57,7 @@ def _without_ids(plan, ids):
                 for n in s["nested"]:
                     st = filt(n["steps"])
                     if st:
-                        nn.append({"at": n["at"], "steps": st})
+                        nn.append(dict(n, steps=st))
                 if nn:
                     s["nested"] = nn
                 else:
